@@ -67,11 +67,18 @@ class TaskScheduler(object):
         :param tasks: task to wait for
         :return: ``None``
         """
-        while not task.is_computed():
-            self._execute(task)
-            if task.is_computed():
-                break
-            self._continue_with_batch()
+        num_tasks = len(self._tasks)
+        try:
+            while not task.is_computed():
+                self._execute(task)
+                if task.is_computed():
+                    break
+                self._continue_with_batch()
+        except BaseException:
+            # An exception escaping the execution loop ends this computation: the
+            # scheduler must not retain the tasks that were pushed for it.
+            del self._tasks[num_tasks:]
+            raise
 
     def _execute(self, root_task):
         """Implements task execution loop.
